@@ -216,6 +216,20 @@ def run(run):
         if "NeverPoisoned" not in str(e):
             raise
         run.extra["mc_instances"]["MC_DiskCrash_inplace_new (negative)"] = {"violates": "NeverPoisoned", "as_expected": True}
+    # two writers at once (DiskCrash2.tla): a temporary name per writer keeps the final name complete in every interleaving and
+    # crash schedule; one shared name must be refuted
+    for nm in ("MC_DiskCrash2_perwriter_TRUE", "MC_DiskCrash2_perwriter_FALSE"):
+        res = mc.run_mc(nm, workers=2, module="MC_DiskCrash2")
+        run.tlc(res)
+        run.extra["mc_instances"][nm] = {"states": res.distinct, "exhaustive": True}
+    for nm in ("MC_DiskCrash2_shared_TRUE", "MC_DiskCrash2_shared_FALSE"):
+        try:
+            mc.run_mc(nm, workers=1, module="MC_DiskCrash2", coverage=False)
+            raise tla.MachineryError(f"negative instance {nm} was not refuted (vacuity)")
+        except tla.MachineryError as e:
+            if "FinalAlwaysComplete" not in str(e) and "NeverPoisoned" not in str(e):
+                raise
+            run.extra["mc_instances"][nm + " (negative)"] = {"violates": "FinalAlwaysComplete", "as_expected": True}
     plans = plans_from_tlc(run)
     run.extra["crash_plans_from_tlc"] = plans
     jobs = []
